@@ -12,7 +12,7 @@ import (
 )
 
 func init() {
-	register(&Rule{Name: "ORDER.MAPRANGE", Props: []string{"C05", "C07", "C08", "C11"}, Floor: 25,
+	register(&Rule{Name: "ORDER.MAPRANGE", Props: []string{"C05", "C07", "C08", "C11", "C12"}, Floor: 25,
 		Doc: "every range over a map is order-insensitive by an accepted idiom, or is reported",
 		Run: ruleOrderMapRange})
 	register(&Rule{Name: "ORDER.SORTKEY", Props: []string{"C05", "C11"}, Floor: 2,
